@@ -315,7 +315,7 @@ def _(c):
 # ---------------------------------------------------------------------------------------------
 
 OPS = ["sgp4", "sgp4beta", "kepler", "j2", "num_rk4", "cw", "ephem_interp", "frame_itrf", "frame_tod", "tle_write", "sun", "moon", "ccsds_opm",
-       "events", "frame_station", "ccsds_oem", "jpl_mars", "ephem_iter", "frame_gcrf_from_itrf"]
+       "events", "frame_station", "ccsds_oem", "jpl_mars", "ephem_iter", "frame_gcrf_from_itrf", "ccsds_omm_kvn", "ccsds_omm_xml"]
 
 
 def _grid_ops(tier, rng):
@@ -346,7 +346,8 @@ def _(c):
     _eop_setup()
     op = OPS[c.integer("op")]
     la, le = SCALES[c.integer("la")], SCALES[c.integer("le")]
-    base = {"sgp4": "sgp4", "sgp4beta": "sgp4", "kepler": "kepler", "j2": "j2", "num_rk4": "num_rk4", "cw": "cw", "tle_write": "sgp4"}.get(op, "kepler")
+    base = {"sgp4": "sgp4", "sgp4beta": "sgp4", "kepler": "kepler", "j2": "j2", "num_rk4": "num_rk4", "cw": "cw", "tle_write": "sgp4", "ccsds_omm_kvn": "sgp4",
+            "ccsds_omm_xml": "sgp4"}.get(op, "kepler")
     ref, d0 = _make(base)
     offs = {0: 5000.0, 1: 86400 - ((d0._s) % 86400) - 3600.0, 2: 86400 - ((d0._s) % 86400) + 37.0 + 10.0}[c.integer("inst")]  # 2: 10 s after UTC midnight
     target = d0 + timedelta(seconds=offs)
@@ -461,6 +462,15 @@ def _(c):
         want = [pos(o) for o in eph.iter(start=a0, stop=a0 + timedelta(seconds=1000), step=timedelta(seconds=250))]
         got = [pos(o) for o in eph2.iter(start=a0.change_scale(la), stop=(a0 + timedelta(seconds=1000)).change_scale(la), step=timedelta(seconds=250))]
         c.ensure("iteration", len(want) == len(got) == 5 and all(close(x, y) for x, y in zip(want, got)))
+    elif op in ("ccsds_omm_kvn", "ccsds_omm_xml"):
+        # mean elements message of a TLE orbit whose epoch carries another label: the (TIME_SYSTEM, EPOCH) pair read back designates the same instant,
+        # and the orbit read back propagates to the same place
+        from beyond.io import ccsds
+        fmt = op[-3:]
+        a = ccsds.loads(ccsds.dumps(ref, fmt=fmt))
+        b = ccsds.loads(ccsds.dumps(relabel_orbit(ref, le), fmt=fmt))
+        c.ensure("ccsds_instant", abs((a.date - b.date).total_seconds()) <= 2e-6 and abs((a.date - ref.date).total_seconds()) <= 2e-6)
+        c.ensure("propagation", close(pos(a.propagate(target)), pos(b.propagate(target.change_scale(la)))))
     elif op == "ccsds_opm":
         from beyond.io import ccsds
         sv = ref.propagate(target)
